@@ -232,7 +232,9 @@ func (r *FeatureLocal) ApproveOrDenyWrite(msg *api.Message, err model.ErrorType)
 		if ok {
 			r.writeApprovalReceived[ski][*msg.RequestHeader.MsgCounter] = amount + 1
 		} else {
-			r.writeApprovalReceived[ski] = make(map[model.MsgCounterType]int)
+			if r.writeApprovalReceived[ski] == nil {
+				r.writeApprovalReceived[ski] = make(map[model.MsgCounterType]int)
+			}
 			r.writeApprovalReceived[ski][*msg.RequestHeader.MsgCounter] = 1
 		}
 		// do we have enough approve messages, if not exit
